@@ -8,3 +8,4 @@ INVARIANT CmpTransitive
 INVARIANT PrefixIsSmaller
 INVARIANT EmptySpecIsToStr
 CHECK_DEADLOCK FALSE
+INVARIANT StrWidthReached
